@@ -59,6 +59,11 @@ BODIES = [
                 '', '>>> if os.environ.get("XV_SW") == "A": raise ValueError("A")', '', 'prose', '', '>>> y = 1', 'sw{id}']),
     ('switch_bind', ['>>> import os', '>>> T.append("{id}")', '>>> if os.environ.get("XV_SW") == "A": LEFT{id} = 1',
                      '>>> print("LEFT{id}" in dir())', 'False' if False else '{sw_left}']),
+    # directives whose condition is a fact about the process: judged when the directive is reached, on every run
+    ('switch_requires', ['>>> T.append("pre{id}")', '>>> # xdoctest: +REQUIRES(env:XV_SW==A)', '>>> T.append("{id}")',
+                         '>>> print("ran{id}")', 'ran{id}']),
+    ('switch_requires_inline', ['>>> T.append("{id}")  # xdoctest: +REQUIRES(env:XV_SW!=A)', '>>> print("after{id}")',
+                                'after{id}']),
     ('gotwant_fail', ['>>> T.append("{id}")', '>>> print("a")', 'b']),
     # nothing runs at all: skipped on every run, also on the n-th run of the same object
     ('all_skipped', ['>>> # xdoctest: +SKIP', '>>> T.append("{id}")', '>>> print("never")', 'BOGUS']),
@@ -77,7 +82,7 @@ for _k, _b in BODIES:
         if _ln == '{sw_left}':
             _b[_i] = 'False'
 KINDS = [k for k, _ in BODIES]
-SWITCHED = ('switch', 'switch_bind')
+SWITCHED = ('switch', 'switch_bind', 'switch_requires', 'switch_requires_inline')
 
 
 def required_cells(tier):
